@@ -208,57 +208,116 @@ Proof.
       rewrite OB. f_equal. symmetry. exact (overwrite_absorb pos left ND a h0 a1 h row b2 O1 OR OB).
 Qed.
 
-(* ---- finding C03-counts-duplicate-user-alleles ------------------------------------------- *)
-(* With the user allele list ("A","C","A") and genotypes [1;0] (one sample carries "A",
-   encoded as the first occurrence, index 0) counts() reports 0 carriers of "A". *)
-Lemma counts_duplicate_refuted_w :
-  exists (r : decode_result) (a : allele),
-    carriers r a = 1 /\ dict_get (counts_model r) (Some a) = Some 0.
-Proof. exists ([1; 0], [[65]; [67]; [65]], false), [65]. split; vm_compute; reflexivity. Qed.
+(* ---- Variant.counts() ------------------------------------------------------------------------ *)
 
-(* without duplicates the Counter is right: every allele of the list gets its carriers *)
-Lemma dict_get_set_same d k x : dict_get (dict_set d k x) k = Some x.
+(* historical record: the pinned code (assignment instead of +=).  With the user allele list
+   ("A","C","A") and genotypes [1;0] (one sample carries "A", encoded as index 0) it reported 0
+   carriers of "A".  Repaired by /repo commit 8615230. *)
+Lemma counts_duplicate_pinned_refuted_w :
+  exists (r : decode_result) (a : allele),
+    carriers r a = 1 /\ dict_get (counts_model_pinned r) (Some a) = Some 0 /\
+    dict_get (counts_model r) (Some a) = Some 1.
+Proof. exists ([1; 0], [[65]; [67]; [65]], false), [65]. repeat split; vm_compute; reflexivity. Qed.
+
+Lemma okey_some_eqb a b : okey_eqb (Some a) (Some b) = allele_eqb a b.
+Proof. reflexivity. Qed.
+
+Lemma dict_get_add_same d k x :
+  dict_get (dict_add d k x) k = Some (match dict_get d k with Some y => y + x | None => x end).
 Proof.
   induction d as [|[k' y] r IH]; simpl.
   - unfold okey_eqb, opt_eqb. destruct k; [rewrite allele_eqb_refl|]; reflexivity.
   - destruct (okey_eqb k k') eqn:E; simpl; rewrite E; [reflexivity | assumption].
 Qed.
 
-Lemma dict_get_set_other d k k' x : okey_eqb k' k = false -> dict_get (dict_set d k x) k' = dict_get d k'.
+Lemma okey_eqb_trans_false k k0 k' : okey_eqb k k0 = true -> okey_eqb k' k0 = true -> okey_eqb k' k = true.
+Proof.
+  unfold okey_eqb, opt_eqb. destruct k, k0, k'; try discriminate; try reflexivity.
+  intros E E'. apply allele_eqb_eq in E, E'. subst. apply allele_eqb_refl.
+Qed.
+
+Lemma dict_get_add_other d k k' x : okey_eqb k' k = false -> dict_get (dict_add d k x) k' = dict_get d k'.
 Proof.
   intros N. induction d as [|[k0 y] r IH]; simpl.
   - rewrite N. reflexivity.
   - destruct (okey_eqb k k0) eqn:E; simpl.
     + destruct (okey_eqb k' k0) eqn:E'; [|reflexivity]. exfalso.
-      unfold okey_eqb, opt_eqb in *. destruct k, k0, k'; try discriminate.
-      apply allele_eqb_eq in E, E'. subst. rewrite allele_eqb_refl in N. discriminate.
+      rewrite (okey_eqb_trans_false _ _ _ E E') in N. discriminate.
     + destruct (okey_eqb k' k0); [reflexivity | assumption].
 Qed.
 
-Lemma counts_loop_nodup g : forall al i d a j,
-  NoDup al -> 0 <= j -> get al j = Ok a ->
-  dict_get (counts_loop g i al d) (Some a) = Some (count_eq g (i + j)).
+(* sum over the positions j of [al] holding allele a of (number of genotypes == i + j) *)
+Fixpoint sum_idx (g : list Z) (a : allele) (i : Z) (al : list allele) : Z :=
+  match al with
+  | [] => 0
+  | x :: r => (if allele_eqb a x then count_eq g i else 0) + sum_idx g a (i + 1) r
+  end.
+
+Lemma counts_loop_add g a : forall al i d,
+  dict_get (counts_loop dict_add g i al d) (Some a) =
+  match dict_get d (Some a) with
+  | Some b => Some (b + sum_idx g a i al)
+  | None => if existsb (allele_eqb a) al then Some (sum_idx g a i al) else None
+  end.
 Proof.
-  induction al as [|x r IH]; intros i d a j ND Hj G.
-  - unfold get in G. destruct (j <? 0); [discriminate|]. destruct (Z.to_nat j); discriminate.
-  - inversion ND as [|? ? NI ND']; subst. simpl. destruct (Z.eq_dec j 0) as [-> | Nj].
-    + unfold get in G; simpl in G. inversion G; subst.
-      assert (KEEP : forall r' i' d', ~ In a r' ->
-                dict_get (counts_loop g i' r' d') (Some a) = dict_get d' (Some a)).
-      { induction r' as [|y r' IHr]; intros i' d' NI'; simpl; [reflexivity|].
-        rewrite IHr by (intro; apply NI'; right; assumption).
-        apply dict_get_set_other. unfold okey_eqb, opt_eqb.
-        destruct (allele_eqb a y) eqn:E; [|reflexivity]. apply allele_eqb_eq in E. subst.
-        exfalso. apply NI'. left. reflexivity. }
-      rewrite KEEP by assumption. rewrite dict_get_set_same. f_equal. f_equal. lia.
-    + rewrite get_cons_pos in G by lia. rewrite (IH (i + 1) _ a (j - 1) ND' ltac:(lia) G).
-      f_equal. f_equal. lia.
+  induction al as [|x r IH]; intros i d; simpl.
+  - destruct (dict_get d (Some a)); [f_equal; lia | reflexivity].
+  - rewrite IH. destruct (allele_eqb a x) eqn:E.
+    + apply allele_eqb_eq in E. subst x. rewrite dict_get_add_same.
+      destruct (dict_get d (Some a)); simpl; f_equal; lia.
+    + rewrite dict_get_add_other by (rewrite okey_some_eqb; assumption).
+      destruct (dict_get d (Some a)); simpl; [f_equal; lia | reflexivity].
 Qed.
 
-Lemma counts_without_duplicates_l g al hm i a :
-  NoDup al -> get al i = Ok a ->
-  dict_get (counts_model (g, al, hm)) (Some a) = Some (count_eq g i).
+Lemma count_eq_cons x g i : count_eq (x :: g) i = (if i =? x then 1 else 0) + count_eq g i.
+Proof. unfold count_eq, zlen. simpl. destruct (i =? x); simpl length; lia. Qed.
+
+Lemma sum_idx_cons x g a : forall al i,
+  sum_idx (x :: g) a i al = sum_idx [x] a i al + sum_idx g a i al.
 Proof.
-  intros ND G. unfold counts_model. pose proof (get_range _ _ _ G) as R.
-  rewrite (counts_loop_nodup g al 0 _ a i ND ltac:(lia) G). reflexivity.
+  induction al as [|y r IH]; intros i; simpl; [reflexivity|]. rewrite IH.
+  destruct (allele_eqb a y); [|lia]. rewrite (count_eq_cons x g i), (count_eq_cons x [] i).
+  unfold count_eq at 2. simpl. unfold zlen. simpl. lia.
+Qed.
+
+Lemma sum_idx_point x a : forall al i,
+  sum_idx [x] a i al =
+  if match get al (x - i) with Ok a' => allele_eqb a a' | _ => false end then 1 else 0.
+Proof.
+  induction al as [|y r IH]; intros i; simpl.
+  - rewrite get_not_ok by (unfold zlen; simpl; lia). reflexivity.
+  - rewrite IH. rewrite (count_eq_cons x [] i). unfold count_eq, zlen. simpl.
+    destruct (Z.eq_dec i x) as [-> | NE].
+    + rewrite Z.eqb_refl. replace (x - x) with 0 by lia. unfold get at 2. simpl.
+      rewrite (get_not_ok r (x - (x + 1))) by lia. destruct (allele_eqb a y); reflexivity.
+    + destruct (i =? x) eqn:E; [apply Z.eqb_eq in E; contradiction|].
+      replace (x - (i + 1)) with (x - i - 1) by lia.
+      destruct (Z_lt_dec (x - i) 0) as [LT | GE].
+      * rewrite (get_not_ok (y :: r)) by lia. rewrite (get_not_ok r) by lia.
+        destruct (allele_eqb a y); reflexivity.
+      * rewrite (get_cons_pos y r (x - i)) by lia. destruct (allele_eqb a y); reflexivity.
+Qed.
+
+Lemma sum_idx_carriers a al : forall g,
+  sum_idx g a 0 al =
+  zlen (filter (fun x => match get al x with Ok a' => allele_eqb a a' | _ => false end) g).
+Proof.
+  induction g as [|x g IH].
+  - unfold zlen; simpl. generalize 0 at 1. induction al as [|y r IHr]; intros i; simpl; [reflexivity|].
+    rewrite IHr. unfold count_eq, zlen. simpl. destruct (allele_eqb a y); reflexivity.
+  - rewrite sum_idx_cons, IH, sum_idx_point. replace (x - 0) with x by lia. simpl filter.
+    destruct (match get al x with Ok a' => allele_eqb a a' | _ => false end); unfold zlen; simpl length; lia.
+Qed.
+
+(* The repaired counts(): every allele of the list — duplicated or not, whatever the
+   genotypes — is mapped to the number of samples whose genotype reads as that allele. *)
+Lemma counts_correct_l g al hm a :
+  In a al -> dict_get (counts_model (g, al, hm)) (Some a) = Some (carriers (g, al, hm) a).
+Proof.
+  intros I. unfold counts_model, counts_with, carriers. rewrite counts_loop_add.
+  assert (E : existsb (allele_eqb a) al = true).
+  { apply existsb_exists. exists a. split; [assumption | apply allele_eqb_refl]. }
+  assert (D : dict_get (if hm then [(None, count_eq g MISSING)] else []) (Some a) = None)
+    by (destruct hm; reflexivity).
+  rewrite D, E, sum_idx_carriers. reflexivity.
 Qed.
